@@ -219,12 +219,16 @@ def render_value(v):
         return str(n), True
     if k == "byte":
         n = v["v"]
+        if v.get("raw") and n < 128:
+            return "b'%s'" % chr(n), True
         if 33 <= n < 127 and chr(n) not in "'\\":
             return "b'%s'" % chr(n), True
         return "byte(%d)" % n, True
     if k == "char":
         cp = v["v"]
         c = chr(cp)
+        if v.get("raw"):                # the character itself between the quotes, whatever it is (e.g. a line break)
+            return "'%s'" % c, True
         if cp >= 33 and c not in "'\\" and c.isprintable():
             return "'%s'" % c, True
         return "char(%d)" % cp, True
